@@ -102,13 +102,15 @@ def list_leg(ck):
     own label with its own server's banner - none twice, none skipped (tasks that wait in the queue keep their own target)."""
     base = c08.healthy()['warn']
     scs, meta = [], []
-    for n, threads in ((3, 1), (4, 1), (4, 2), (5, 3), (2, 1)):
+    for n, threads in ((3, 1), (4, 1), (4, 2), (5, 3), (2, 1), (-4, 1), (-3, 2)):
         servers, lines, want = {}, [], {}
         resolver = {}
+        same_host = n < 0            # negative: the same host on every line, each line with another port
+        n = abs(n)
         for i in range(n):
-            host = 'node%d.example' % i
-            ip = '192.0.2.%d' % (10 + i)
-            port = 22 if i % 2 == 0 else 2200 + i
+            host = 'node%d.example' % (0 if same_host else i)
+            ip = '192.0.2.%d' % (10 + (0 if same_host else i))
+            port = (22 if i == 0 else 2200 + i) if same_host else (22 if i % 2 == 0 else 2200 + i)
             resolver[host] = [(socket.AF_INET, ip)]
             cfg = peers.ServerCfg(base)
             cfg['banner'] = b'SSH-2.0-Node_%d.0' % i
